@@ -2,6 +2,7 @@
 # re-run every packaged seed against its property's check; prints one line per seed
 for d in /verif/seeded/*; do
   id=$(basename $d); p=${id%%_*}
+  if grep -q neutralised_by_fix $d/meta.json 2>/dev/null; then echo "$id neutralised by a fix: no longer breaks the property"; continue; fi
   out=$(/verif/tools/try_seed.sh $d/patch.diff $p 2>&1 | head -1)
   echo "$id ${out:-exit 0 (missed)}"
 done
